@@ -32,6 +32,15 @@ def component(tag, c):
     if not c["enabled"]:
         attrs.append(battr("enabled", False))
     kids = []
+    for bits in c.get("filters", []):          # X06: several intent-filters, bit 0 = MAIN, bit 1 = LAUNCHER
+        f = dict(tag="intent-filter", attrs=[], children=[])
+        if bits & 2:
+            f["children"].append(dict(tag="category", attrs=[sattr("name", "android.intent.category.LAUNCHER")], children=[]))
+        if bits & 1:
+            f["children"].append(dict(tag="action", attrs=[sattr("name", "android.intent.action.MAIN")], children=[]))
+        if not bits:
+            f["children"].append(dict(tag="action", attrs=[sattr("name", "android.intent.action.VIEW")], children=[]))
+        kids.append(f)
     if c["main"] or c["launcher"]:
         f = dict(tag="intent-filter", attrs=[], children=[])
         if c["main"]:
